@@ -85,6 +85,9 @@ def api_objects(m, order=None, wrap=None, share=False, int_zero=False):
                 v = f(r)
                 return 0 if v == 0 else v
             return g
+    if m.get("int_returns"):
+        inner_ir = b.potdef
+        b.potdef = lambda pd: build_api.int_returns(inner_ir(pd))
     els = order or [e for e in m["elements"] if e in element_set(m)]
     lk = lookup(m)
     zero = ap.potentialforms.zero()
